@@ -33,6 +33,28 @@
      Pre_NotifyUnordered  #19  notification goroutines send in any order
      Pre_RetainDropsNewer #28  RetainOnly drops checkpoints newer than every
                                retained id (still being assembled)
+   Two more switches describe designs the code never had; they generate the
+   schedules a regression of that kind would admit (the real code must
+   serialise them or stay within the property):
+     Pre_AckUnlocked           an acknowledgement releases stateMu between its
+                               bookkeeping and finishSnapshot (the splitter's
+                               Checkpoint()); the complete snapshot stays pending
+                               in between: AckFinish(f) is the second half
+     Pre_ForwardConcurrent     RpcMode: the job's receiver loop takes the next
+                               retained-set while UpdateRetainedCheckpoints
+                               requests of the previous one are still in flight
+
+   Burst = TRUE restricts the call strings to back-to-back acknowledgements:
+   while a checkpoint is pending only its next missing acknowledgement is
+   enabled (one successor per state), so that many overlapping publications
+   (every order of their write / delete / notify steps, a subscriber that
+   receives late) are enumerated exhaustively.
+
+   RpcMode = TRUE models the job -> operator boundary instead of an atomic
+   delivery: Forward (the job's receiver loop takes one retained-set and issues
+   UpdateRetainedCheckpoints to every operator) and OpHandle(o, i) (operator o
+   handles one of the requests in flight to it; requests in flight to the same
+   operator at the same time are not ordered by the transport).
 
    Not modelled here (C15): pendingSnapshot is never cleared when the assembly
    is replaced (#17) -- `pend` only goes away by completion or Restart, as in
@@ -51,8 +73,11 @@ CONSTANTS Ops, Srs,        \* the assembly (sets of node names)
           MaxTok,          \* bound on split-state tokens handed to one pending checkpoint
           AckOffsets,      \* ids an ack may name: last id handed out + k - 1, k in AckOffsets (0 late, 1 current, 2 future)
           DirMode,         \* TRUE: enumerate directory states, only Restart
+          Burst,           \* TRUE: acknowledgements of a pending checkpoint arrive back to back
+          RpcMode,         \* TRUE: job -> operator requests are separate steps (Forward / OpHandle)
           Pre_DupSrAppended, Pre_ListLexical, Pre_LateClobbers,
-          Pre_NotifyUnordered, Pre_RetainDropsNewer
+          Pre_NotifyUnordered, Pre_RetainDropsNewer,
+          Pre_AckUnlocked, Pre_ForwardConcurrent
 
 VARIABLES ckptId,      \* storeState.checkpointID
           pend,        \* storeState.pendingSnapshot
@@ -65,6 +90,9 @@ VARIABLES ckptId,      \* storeState.checkpointID
           delivered,   \* retained-sets delivered in this incarnation
           held,        \* held[op] = DKV checkpoint ids operator op keeps
           nfin,        \* completions in this incarnation (splitter.Checkpoint calls)
+          fin,         \* Pre_AckUnlocked: finishSnapshot calls running outside the lock
+          rpc,         \* RpcMode: rpc[op] = UpdateRetainedCheckpoints requests in flight to op (issue order)
+          told,        \* RpcMode: told[op] = id named by the last request op handled (0 = none)
           restarts,
           \* ghosts
           handed,      \* ids handed out in this incarnation
@@ -73,9 +101,9 @@ VARIABLES ckptId,      \* storeState.checkpointID
           bad,         \* names of properties broken by an action (action-level ghosts)
           hist
 
-vars == <<ckptId, pend, cur, files, writes, dels, ntfs, chan, delivered, held, nfin,
+vars == <<ckptId, pend, cur, files, writes, dels, ntfs, chan, delivered, held, nfin, fin, rpc, told,
           restarts, handed, written, ackd, bad, hist>>
-view == <<ckptId, pend, cur, files, writes, dels, ntfs, chan, delivered, held, nfin,
+view == <<ckptId, pend, cur, files, writes, dels, ntfs, chan, delivered, held, nfin, fin, rpc, told,
           restarts, handed, written, ackd, bad>>
 
 Max(S) == IF S = {} THEN 0 ELSE CHOOSE x \in S : \A y \in S : y <= x
@@ -119,6 +147,7 @@ Init ==
   /\ pend = NoPend /\ writes = {} /\ dels = {} /\ ntfs = <<>> /\ chan = <<>>
   /\ delivered = <<>> /\ held = [o \in Ops |-> IF cur = 0 THEN {} ELSE {cur}]
   /\ nfin = 0 /\ restarts = 0 /\ handed = {} /\ ackd = {} /\ bad = {} /\ hist = <<>>
+  /\ fin = {} /\ rpc = [o \in Ops |-> <<>>] /\ told = [o \in Ops |-> 0]
 
 \* projection logged with every step (what the replayer compares); `bad` names
 \* the properties this step breaks: action-level ghosts plus state predicates
@@ -129,7 +158,8 @@ StateBad(c, f, h) ==
 Proj(c, p, f, w, d, nt, ch, h, b) ==
   [cur |-> c, pid |-> IF p.on THEN p.id ELSE 0, files |-> f,
    w |-> {x.id : x \in w}, d |-> d, nt |-> nt, ch |-> ch, held |-> h,
-   newest |-> Max(written'), bad |-> (b \ bad) \cup StateBad(c, f, h)]
+   newest |-> Max(written'), fin |-> {x.k : x \in fin'}, rpc |-> rpc',
+   bad |-> (b \ bad) \cup StateBad(c, f, h)]
 Log(r) == hist' = Append(hist, r @@ Proj(cur', pend', files', writes', dels', ntfs', chan', held', bad'))
 
 -----------------------------------------------------------------------------
@@ -138,7 +168,8 @@ Floor == Max(written \cup handed)
 
 Create(sp) ==
   /\ (IF sp THEN "Savepoint" ELSE "Create") \in Acts
-  /\ UNCHANGED <<cur, files, writes, dels, ntfs, chan, delivered, held, nfin, restarts, written>>
+  /\ UNCHANGED <<cur, files, writes, dels, ntfs, chan, delivered, held, nfin, fin, rpc, told, restarts, written>>
+  /\ Burst => Cardinality(writes) + Cardinality(fin) < MaxInFlight
   /\ IF pend.on
      THEN /\ UNCHANGED <<ckptId, handed, ackd, bad>>
           /\ IF sp /\ ~pend.sp
@@ -167,38 +198,56 @@ Whole(ops, states, cands) ==
   /\ LET want == UNION {Range(cands[s][1]) : s \in Srs}
      IN Range(states) = want /\ Len(states) = Cardinality(want)
 
-\* common tail of AddOperatorSnapshot / AddSourceSnapshot: isComplete => finishSnapshot
+\* checkpoint ids whose publication was decided in this incarnation
+Decided == {w.id : w \in writes} \cup {f.id : f \in fin} \cup (written \cap handed)
+
+\* common tail of AddOperatorSnapshot / AddSourceSnapshot: isComplete => finishSnapshot.
+\* The code runs finishSnapshot (the splitter's Checkpoint(), spawning the publication) and clears
+\* pendingSnapshot inside the same critical section; with Pre_AckUnlocked the lock is released after
+\* the bookkeeping and the complete snapshot stays pending until AckFinish.
 AfterAck(p) ==
   IF p.on /\ Complete(p)
-  THEN /\ Cardinality(writes) < MaxInFlight
-       /\ writes' = writes \cup {[id |-> p.id, sp |-> p.sp, ops |-> p.ops, states |-> p.states,
-                                   cands |-> p.acks, spl |-> nfin + 1]}
-       /\ nfin' = nfin + 1
-       /\ pend' = NoPend
+  THEN /\ Cardinality(writes) + Cardinality(fin) < MaxInFlight
        /\ bad' = bad \cup (IF \A nd \in Ops \cup Srs : <<p.id, nd>> \in ackd' THEN {} ELSE {"OnlyWhenAllAcked"})
                      \cup (IF Whole(p.ops, p.states, p.acks) THEN {} ELSE {"PublishedWhole"})
-  ELSE /\ pend' = p /\ UNCHANGED <<writes, nfin, bad>>
+                     \cup (IF p.id \in Decided THEN {"PublishedOnce"} ELSE {})
+       /\ IF Pre_AckUnlocked
+          THEN /\ fin' = fin \cup {[id |-> p.id, sp |-> p.sp, ops |-> p.ops, states |-> p.states,
+                                     cands |-> p.acks, k |-> nfin + Cardinality(fin) + 1]}
+               /\ pend' = p
+               /\ UNCHANGED <<writes, nfin>>
+          ELSE /\ writes' = writes \cup {[id |-> p.id, sp |-> p.sp, ops |-> p.ops, states |-> p.states,
+                                           cands |-> p.acks, spl |-> nfin + 1]}
+               /\ nfin' = nfin + 1
+               /\ pend' = NoPend
+               /\ UNCHANGED fin
+  ELSE /\ pend' = p /\ UNCHANGED <<writes, nfin, fin, bad>>
+
+\* what an acknowledgement step logs about the publication it decides
+PubOf(p2) == IF p2.on /\ Complete(p2)
+             THEN [id |-> p2.id, ops |-> p2.ops, states |-> p2.states, cands |-> p2.acks,
+                   spl |-> nfin + Cardinality(fin) + 1, again |-> p2.id \in Decided, open |-> Pre_AckUnlocked]
+             ELSE [id |-> 0]
 
 Good(id) == pend.on /\ pend.id = id
 
 OpAck(id, op) ==
   /\ (IF Good(id) /\ op \in Ops /\ op \notin pend.opDone THEN "OpAck" ELSE "BadAck") \in Acts
-  /\ UNCHANGED <<ckptId, cur, files, dels, ntfs, chan, delivered, restarts, handed, written>>
+  /\ UNCHANGED <<ckptId, cur, files, dels, ntfs, chan, delivered, rpc, told, restarts, handed, written>>
   /\ ackd' = IF id \in handed THEN ackd \cup {<<id, op>>} ELSE ackd
   /\ LET ret == IF ~pend.on THEN "nopending" ELSE IF pend.id # id THEN "wrongid" ELSE "ok"
          counts == Good(id) /\ op \in Ops /\ op \notin pend.opDone
          p2 == IF counts THEN [pend EXCEPT !.opDone = @ \cup {op}, !.ops = Append(@, op)] ELSE pend
          \* the operator took DKV checkpoint `id` before it acknowledged
          dkv == counts /\ id \notin held[op]
-     IN /\ AfterAck(p2)
+     IN \* an acknowledgement that does not name the pending checkpoint is refused at once
+        /\ IF Good(id) THEN AfterAck(p2) ELSE pend' = p2 /\ UNCHANGED <<writes, nfin, fin, bad>>
         /\ held' = IF dkv THEN [held EXCEPT ![op] = @ \cup {id}] ELSE held
-        /\ Log([a |-> "OpAck", id |-> id, op |-> op, ret |-> ret, dkv |-> dkv,
-                pub |-> IF p2.on /\ Complete(p2) THEN [id |-> p2.id, ops |-> p2.ops, states |-> p2.states, cands |-> p2.acks, spl |-> nfin + 1]
-                        ELSE [id |-> 0]])
+        /\ Log([a |-> "OpAck", id |-> id, op |-> op, ret |-> ret, dkv |-> dkv, pub |-> IF Good(id) THEN PubOf(p2) ELSE [id |-> 0]])
 
 SrAck(id, sr, cnt) ==
   /\ (IF Good(id) /\ sr \in Srs /\ sr \notin pend.srDone THEN "SrAck" ELSE "BadAck") \in Acts
-  /\ UNCHANGED <<ckptId, cur, files, dels, ntfs, chan, delivered, held, restarts, handed, written>>
+  /\ UNCHANGED <<ckptId, cur, files, dels, ntfs, chan, delivered, held, rpc, told, restarts, handed, written>>
   /\ ackd' = IF id \in handed THEN ackd \cup {<<id, sr>>} ELSE ackd
   /\ LET ret == IF ~pend.on THEN "nopending" ELSE IF pend.id # id THEN "wrongid"
                 ELSE IF sr \notin Srs THEN "unknown" ELSE "ok"
@@ -212,17 +261,28 @@ SrAck(id, sr, cnt) ==
                                              !.states = IF Pre_DupSrAppended THEN @ \o toks ELSE @]
                ELSE p1
      IN /\ Good(id) => pend.ntok + cnt <= MaxTok
-        /\ AfterAck(p2)
+        \* a wrong id or an unknown runner is refused before the completion test
+        /\ IF match THEN AfterAck(p2) ELSE pend' = p2 /\ UNCHANGED <<writes, nfin, fin, bad>>
         /\ Log([a |-> "SrAck", id |-> id, sr |-> sr, states |-> toks, ret |-> ret,
-                pub |-> IF p2.on /\ Complete(p2) THEN [id |-> p2.id, ops |-> p2.ops, states |-> p2.states, cands |-> p2.acks, spl |-> nfin + 1]
-                        ELSE [id |-> 0]])
+                pub |-> IF match THEN PubOf(p2) ELSE [id |-> 0]])
+
+\* Pre_AckUnlocked only: the second half of an acknowledgement that found the snapshot complete --
+\* splitter.Checkpoint() returns, pendingSnapshot is cleared if it is still this one, the
+\* publication goroutine is spawned
+AckFinish(f) ==
+  /\ UNCHANGED <<ckptId, cur, files, dels, ntfs, chan, delivered, held, rpc, told, restarts, handed, written, ackd, bad>>
+  /\ fin' = fin \ {f}
+  /\ nfin' = nfin + 1
+  /\ writes' = writes \cup {[id |-> f.id, sp |-> f.sp, ops |-> f.ops, states |-> f.states, cands |-> f.cands, spl |-> f.k]}
+  /\ pend' = IF pend.on /\ pend.id = f.id THEN NoPend ELSE pend
+  /\ Log([a |-> "AckFinish", id |-> f.id, k |-> f.k])
 
 -----------------------------------------------------------------------------
 \* publication goroutine of checkpoint w.id: fileStore.Write returns, then the
 \* locked section of finishSnapshotAsync
 PublishWrite(w) ==
   /\ "Write" \in Acts
-  /\ UNCHANGED <<ckptId, pend, chan, delivered, held, nfin, restarts, handed, ackd>>
+  /\ UNCHANGED <<ckptId, pend, chan, delivered, held, nfin, fin, rpc, told, restarts, handed, ackd>>
   /\ files' = files \cup {w.id}
   /\ written' = written \cup {w.id}
   /\ writes' = writes \ {w}
@@ -239,7 +299,7 @@ PublishWrite(w) ==
 
 PublishDelete(d) ==
   /\ "Delete" \in Acts
-  /\ UNCHANGED <<ckptId, pend, cur, writes, ntfs, chan, delivered, held, nfin, restarts, handed, written, ackd>>
+  /\ UNCHANGED <<ckptId, pend, cur, writes, ntfs, chan, delivered, held, nfin, fin, rpc, told, restarts, handed, written, ackd>>
   /\ files' = files \ d.ids
   /\ dels' = dels \ {d}
   /\ bad' = bad \cup (IF Max(written) \in d.ids THEN {"NewestSurvives"} ELSE {})
@@ -249,7 +309,7 @@ PublishDelete(d) ==
 \* repaired code chains the goroutines so that they send in spawn (= id) order
 NotifySend(i) ==
   /\ "Notify" \in Acts
-  /\ UNCHANGED <<ckptId, pend, cur, files, writes, dels, delivered, held, nfin, restarts, handed, written, ackd, bad>>
+  /\ UNCHANGED <<ckptId, pend, cur, files, writes, dels, delivered, held, nfin, fin, rpc, told, restarts, handed, written, ackd, bad>>
   /\ i \in DOMAIN ntfs
   /\ Pre_NotifyUnordered \/ i = 1
   /\ ntfs' = SubSeq(ntfs, 1, i - 1) \o SubSeq(ntfs, i + 1, Len(ntfs))
@@ -260,8 +320,8 @@ NotifySend(i) ==
 \* operator's DKV applies RetainOnly
 Retain(S, n) == IF Pre_RetainDropsNewer THEN S \cap {n} ELSE {x \in S : x >= n}
 NotifyDeliver ==
-  /\ "Notify" \in Acts
-  /\ UNCHANGED <<ckptId, pend, cur, files, writes, dels, ntfs, nfin, restarts, handed, written, ackd>>
+  /\ "Notify" \in Acts /\ ~RpcMode
+  /\ UNCHANGED <<ckptId, pend, cur, files, writes, dels, ntfs, nfin, fin, rpc, told, restarts, handed, written, ackd>>
   /\ chan # <<>>
   /\ LET n == Head(chan)
      IN /\ chan' = Tail(chan)
@@ -272,6 +332,34 @@ NotifyDeliver ==
         /\ Log([a |-> "NotifyDeliver", id |-> n,
                 panics |-> {o \in Ops : n \notin held[o]}])   \* RetainOnly panics when it holds none of the named ids
 
+\* RpcMode.  The job's receiver loop (jobs.New) takes one retained-set from the channel and calls
+\* assembly.UpdateRetainedCheckpoints: one request per operator, all in flight together; the loop
+\* receives again only when every response is in.
+Forward ==
+  /\ "Notify" \in Acts /\ RpcMode
+  /\ UNCHANGED <<ckptId, pend, cur, files, writes, dels, ntfs, held, nfin, fin, told, restarts, handed, written, ackd>>
+  /\ chan # <<>>
+  /\ Pre_ForwardConcurrent \/ \A o \in Ops : rpc[o] = <<>>
+  /\ LET n == Head(chan)
+     IN /\ chan' = Tail(chan)
+        /\ delivered' = Append(delivered, n)
+        /\ rpc' = [o \in Ops |-> Append(rpc[o], n)]
+        /\ bad' = bad \cup (IF delivered # <<>> /\ n < Last(delivered) THEN {"RetainNamesNewest"} ELSE {})
+        /\ Log([a |-> "Forward", id |-> n, busy |-> {o \in Ops : rpc[o] # <<>>}])
+
+\* operator o handles one of the requests in flight to it (HandleRemoveCheckpoints -> RetainOnly)
+OpHandle(o, i) ==
+  /\ "Notify" \in Acts /\ RpcMode
+  /\ UNCHANGED <<ckptId, pend, cur, files, writes, dels, ntfs, chan, delivered, nfin, fin, restarts, handed, written, ackd>>
+  /\ i \in DOMAIN rpc[o]
+  /\ LET n == rpc[o][i]
+     IN /\ rpc' = [rpc EXCEPT ![o] = SubSeq(@, 1, i - 1) \o SubSeq(@, i + 1, Len(@))]
+        /\ told' = [told EXCEPT ![o] = n]
+        /\ held' = [held EXCEPT ![o] = Retain(@, n)]
+        /\ bad' = bad \cup (IF n < told[o] THEN {"RetainNamesNewest"} ELSE {})
+                      \cup (IF cur \in held[o] /\ cur \notin Retain(held[o], n) THEN {"OperatorsKeepNewest"} ELSE {})
+        /\ Log([a |-> "OpHandle", op |-> o, id |-> n, pos |-> i])
+
 \* crash + new Store over the same storage + LoadCheckpoint
 Restart ==
   /\ "Restart" \in Acts
@@ -280,22 +368,32 @@ Restart ==
   /\ restarts' = restarts + 1
   /\ pend' = NoPend /\ writes' = {} /\ dels' = {} /\ ntfs' = <<>> /\ chan' = <<>> /\ delivered' = <<>>
   /\ nfin' = 0 /\ handed' = {} /\ ackd' = {}
+  /\ fin' = {} /\ rpc' = [o \in Ops |-> <<>>] /\ told' = [o \in Ops |-> 0]
   /\ LET pick == IF files = {} THEN 0 ELSE IF Pre_ListLexical THEN FirstListed(files) ELSE Max(files)
      IN /\ ckptId' = pick /\ cur' = pick
         /\ held' = [o \in Ops |-> IF pick = 0 THEN {} ELSE {pick}]
         /\ bad' = bad \cup (IF pick # Max(files) THEN {"LoadsNewest"} ELSE {})
         /\ Log([a |-> "Restart", pick |-> pick, want |-> Max(files), first |-> IF files = {} THEN 0 ELSE FirstListed(files)])
 
+\* Burst: the next missing acknowledgement of the pending checkpoint (operators first)
+BurstAck ==
+  IF pend.opDone # Ops THEN OpAck(pend.id, CHOOSE o \in Ops \ pend.opDone : TRUE)
+  ELSE \E c \in TokCounts : SrAck(pend.id, CHOOSE s \in Srs \ pend.srDone : TRUE, c)
+
 Next ==
   /\ Len(hist) < MaxLen
   /\ IF DirMode THEN restarts = 0 /\ Restart
+     ELSE IF Burst /\ pend.on /\ ~Complete(pend) THEN BurstAck
      ELSE \/ Create(FALSE) \/ Create(TRUE)
           \/ \E id \in AckIds : \E op \in Ops \cup {XOp} : OpAck(id, op)
           \/ \E id \in AckIds : \E sr \in Srs \cup {XSr} : \E c \in TokCounts : SrAck(id, sr, c)
+          \/ \E f \in fin : AckFinish(f)
           \/ \E w \in writes : PublishWrite(w)
           \/ \E d \in dels : PublishDelete(d)
           \/ \E i \in DOMAIN ntfs : NotifySend(i)
           \/ NotifyDeliver
+          \/ Forward
+          \/ \E o \in Ops : \E i \in DOMAIN rpc[o] : OpHandle(o, i)
           \/ Restart
 
 Spec == Init /\ [][Next]_vars
@@ -310,18 +408,22 @@ AtMostOnePending == Cardinality({i \in handed : i \notin {w.id : w \in writes} /
 \* ghost-recorded action properties: IdsStrictlyIncrease, OnlyWhenAllAcked, PublishedWhole,
 \* CurrentIsNewest, NewestSurvives, RetainNamesNewest (monotone), OperatorsKeepNewest, LoadsNewest
 NoBad == bad = {}
+\* a checkpoint id is published at most once: no two publications of one id in flight
+PublishedOnce == \A w1, w2 \in writes : w1.id = w2.id => w1 = w2
 
 (* C13 *)
 NewestSurvives == written # {} => Max(written) \in files
 \* at rest the last retained-set delivered names the newest completed checkpoint
-Quiet == writes = {} /\ ntfs = <<>> /\ chan = <<>>
-RetainNamesNewest == (Quiet /\ delivered # <<>>) => Last(delivered) = cur
+Quiet == writes = {} /\ fin = {} /\ ntfs = <<>> /\ chan = <<>> /\ \A o \in Ops : rpc[o] = <<>>
+RetainNamesNewest == /\ (Quiet /\ delivered # <<>>) => Last(delivered) = cur
+                     \* at the job -> operator boundary: the last request an operator handled
+                     /\ Quiet => \A o \in Ops : told[o] # 0 => told[o] = cur
 \* every operator still holds the DKV checkpoint of the newest completed job checkpoint
 OperatorsKeepNewest == cur # 0 => \A o \in Ops : cur \in held[o]
 CurrentIsNewest == Quiet => cur = Max(files \cup {cur})
 
 TypeOK == /\ ckptId \in Nat /\ cur \in Nat /\ files \subseteq Nat
-          /\ Cardinality(writes) <= MaxInFlight
+          /\ Cardinality(writes) + Cardinality(fin) <= MaxInFlight
 
 -----------------------------------------------------------------------------
 \* replay-behaviour export: Dump for -simulate / exhaustive histories (maximal
